@@ -126,13 +126,30 @@ fn new_side(signer: &[u8], evict: bool) -> Side {
 
 /// the calls s2n-quic makes on the dc provider during a handshake, on both sides
 fn handshake(client: &Map, server: &Map, client_addr: SocketAddr, server_addr: SocketAddr, suite: CipherSuite, material: u64) -> Result<(Arc<Entry>, Arc<Entry>), String> {
+    handshake_with_params(client, server, client_addr, server_addr, suite, material, dc::testing::TEST_APPLICATION_PARAMS, dc::testing::TEST_APPLICATION_PARAMS)
+}
+
+/// `client_entry_params` are the parameters stored in the client's entry (what the client uses
+/// when sending to the server, i.e. the server's limits) and vice versa - the same assignment
+/// `test_insert_pair` makes.
+#[allow(clippy::too_many_arguments)]
+pub fn handshake_with_params(
+    client: &Map,
+    server: &Map,
+    client_addr: SocketAddr,
+    server_addr: SocketAddr,
+    suite: CipherSuite,
+    material: u64,
+    client_entry_params: dc::ApplicationParams,
+    server_entry_params: dc::ApplicationParams,
+) -> Result<(Arc<Entry>, Arc<Entry>), String> {
     let tls = FakeTls { material, suite };
     let mut c = client.clone();
     let mut s = server.clone();
     let sa: inet::SocketAddress = server_addr.into();
     let ca: inet::SocketAddress = client_addr.into();
-    let ci = dc::ConnectionInfo::new(&sa, dc::SUPPORTED_VERSIONS[0], dc::testing::TEST_APPLICATION_PARAMS, s2n_quic_core::endpoint::Type::Client.into_event());
-    let si = dc::ConnectionInfo::new(&ca, dc::SUPPORTED_VERSIONS[0], dc::testing::TEST_APPLICATION_PARAMS, s2n_quic_core::endpoint::Type::Server.into_event());
+    let ci = dc::ConnectionInfo::new(&sa, dc::SUPPORTED_VERSIONS[0], client_entry_params, s2n_quic_core::endpoint::Type::Client.into_event());
+    let si = dc::ConnectionInfo::new(&ca, dc::SUPPORTED_VERSIONS[0], server_entry_params, s2n_quic_core::endpoint::Type::Server.into_event());
     let mut cp = c.new_path(&ci).ok_or("client new_path")?;
     let mut sp = s.new_path(&si).ok_or("server new_path")?;
     let ctok = cp.on_path_secrets_ready(&tls).map_err(|e| format!("{e:?}"))?;
